@@ -2,8 +2,13 @@
 
 Facts have the form  a < b  or  a <= b  over normalised expression texts.  ``entails`` closes them
 under transitivity (a<b, b<=c |- a<c ...) and answers a goal of the same form.
+
+``Locals`` brings the terms into one spelling first: named temporaries (``samples = self._data``,
+``size = len(samples)``) are looked through, so that facts and goals written over different names of the same
+value meet.
 """
 import ast
+import copy
 
 from .core import norm
 
@@ -66,3 +71,294 @@ def entails(facts, goal):
     if got is None:
         return False
     return got or not gs
+
+
+# ---------------------------------------------------------------------------------------------- named temporaries
+class Locals(object):
+    """Named temporaries of one function, looked through on demand.
+
+    ``x = <expr>`` (x a local bound only by such plain assignments -- also ``a, b = x, y`` -- and not a parameter)
+    lets a later use of ``x`` be read as ``<expr>`` provided this is the only binding of ``x`` reaching the use,
+    ``x`` is bound on every path to it, and no statement in between can change what ``<expr>`` denotes:
+      * a re-binding of a name it reads,
+      * a store to an attribute path it reads (or to a prefix of one),
+      * when ``<expr>`` is a plain ``a.b.c`` path (an alias of an object): a method call on a proper prefix (the
+        owner may re-bind the field),
+      * when it is more than that (computed from the *contents* of objects): a store into, or a method call on, an
+        object the expression reads.
+    Attribute paths are treated as fields: stores to a different field name of the same object do not interfere.
+    Calls that merely receive such an object as an argument are assumed not to mutate it."""
+
+    def __init__(self, fnode, cfg, keep=()):
+        self.fnode, self.cfg = fnode, cfg
+        self.keep = set(keep)        # names never looked through (e.g. the local holding the next() result)
+        a = fnode.args
+        self.params = set(x.arg for x in a.posonlyargs + a.args + a.kwonlyargs)
+        if a.vararg:
+            self.params.add(a.vararg.arg)
+        if a.kwarg:
+            self.params.add(a.kwarg.arg)
+        self._bind = {}
+        self._value = {}
+        counts = {}
+        from .astutil import stmts_of
+        for st in stmts_of(fnode):
+            for n in _header_nodes(st):
+                if isinstance(n, ast.Name) and isinstance(n.ctx, (ast.Store, ast.Del)):
+                    counts[n.id] = counts.get(n.id, 0) + 1
+                elif isinstance(n, (ast.Import, ast.ImportFrom)):
+                    for al in n.names:
+                        k = (al.asname or al.name).split('.')[0]
+                        counts[k] = counts.get(k, 0) + 2
+                elif isinstance(n, (ast.FunctionDef, ast.AsyncFunctionDef, ast.ClassDef)):
+                    counts[n.name] = counts.get(n.name, 0) + 2
+                elif isinstance(n, (ast.Global, ast.Nonlocal)):
+                    for k in n.names:
+                        counts[k] = counts.get(k, 0) + 2
+            for h in getattr(st, 'handlers', None) or []:
+                if h.name:
+                    counts[h.name] = counts.get(h.name, 0) + 2
+            if isinstance(st, ast.Assign):
+                for t in st.targets:
+                    if isinstance(t, ast.Name):
+                        self._bind.setdefault(t.id, []).append(st)
+                        self._value[(id(st), t.id)] = st.value
+                    elif isinstance(t, (ast.Tuple, ast.List)) and isinstance(st.value, (ast.Tuple, ast.List)) and \
+                            len(t.elts) == len(st.value.elts) and not any(isinstance(e, ast.Starred) for e in t.elts + st.value.elts):
+                        # ``a, b = x, y``: the right-hand sides are all evaluated before any target is bound
+                        tn = set(e.id for e in t.elts if isinstance(e, ast.Name))
+                        for e, v in zip(t.elts, st.value.elts):
+                            if isinstance(e, ast.Name) and not (tn & set(n.id for n in ast.walk(st.value) if isinstance(n, ast.Name))):
+                                self._bind.setdefault(e.id, []).append(st)
+                                self._value[(id(st), e.id)] = v
+        # locals bound only by plain ``x = <expr>`` statements (possibly several: one per branch / handler)
+        self.counts = counts
+        self.defs = dict((k, v) for k, v in self._bind.items() if counts.get(k) == len(v) and k not in self.params)
+        self.single = dict((k, v[0]) for k, v in self.defs.items() if len(v) == 1)
+
+    # -- one step ------------------------------------------------------------------------------------------
+    def reaching(self, name, nodes):
+        """The one binding statement of local ``name`` that reaches all of the CFG ``nodes`` (``name`` bound on every path
+        to them), else None."""
+        sts = self.defs.get(name)
+        if not sts:
+            return None
+        cfg = self.cfg
+        all_ids = cfg.nodes_of_all(sts)
+        if not all_ids:
+            return None
+        found = None
+        for n in nodes:
+            if n in all_ids or not cfg.must_pass(all_ids, cfg.entry, n):
+                return None
+            reaching = [d for d in sts if n in cfg.reach([m for x in cfg.nodes_of(d) for m in cfg.succ[x]], avoid=all_ids)]
+            if len(reaching) != 1 or (found is not None and reaching[0] is not found):
+                return None
+            found = reaching[0]
+        return found
+
+    def def_at(self, name, nodes):
+        """The one binding statement of local ``name`` whose value is what ``name`` stands for at all of the CFG
+        ``nodes``: it is the only binding reaching them, ``name`` is bound on every path, and nothing in between
+        changes what the bound expression denotes.  None otherwise."""
+        if name in self.keep:
+            return None
+        found = self.reaching(name, nodes)
+        if found is None:
+            return None
+        cfg = self.cfg
+        all_ids = cfg.nodes_of_all(self.defs[name])
+        val = self._value[(id(found), name)]
+        if isinstance(val, (ast.Lambda, ast.Yield, ast.YieldFrom, ast.Await, ast.NamedExpr)):
+            return None
+        ids = cfg.nodes_of(found)
+        after = [m for x in ids for m in cfg.succ[x]]
+        for n in nodes:
+            mid = (cfg.reach(after, avoid=all_ids) & cfg.coreach([n], avoid=all_ids)) - {n}
+            if self._killed(val, mid):
+                return None
+        return found
+
+    def binding(self, name, stmt):
+        """(value expression, binding statement) of local ``name`` as used by ``stmt`` -- see def_at -- or None."""
+        d = self.def_at(name, [n for n in self.cfg.nodes_of(stmt) if self.cfg.reachable(n)])
+        return (self._value[(id(d), name)], d) if d is not None else None
+
+    def same(self, e1, s1, e2, s2):
+        """Do ``e1`` evaluated by statement ``s1`` and ``e2`` evaluated by ``s2`` denote the same value?  (Some unfolding of
+        the named temporaries makes them textually equal; every local left in that text has the same binding at both
+        points; nothing between the two points changes what the text denotes.)"""
+        cfg = self.cfg
+        n1 = [n for n in cfg.nodes_of(s1) if cfg.reachable(n)]
+        n2 = [n for n in cfg.nodes_of(s2) if cfg.reachable(n)]
+        if not n1 or not n2:
+            return False
+        forms1 = [self._res(copy.deepcopy(e1), n1, d, None, None) for d in range(6)]
+        forms2 = [self._res(copy.deepcopy(e2), n2, d, None, None) for d in range(6)]
+        done = set()
+        for t1 in forms1:
+            for t2 in forms2:
+                k = norm(t1)
+                if k != norm(t2) or k in done:
+                    continue
+                done.add(k)
+                if self._stable(t1, n1, n2):
+                    return True
+        return False
+
+    def _stable(self, t, n1, n2):
+        cfg = self.cfg
+        for name in set(x.id for x in ast.walk(t) if isinstance(x, ast.Name)):
+            if self.counts.get(name):
+                r1, r2 = self.reaching(name, n1), self.reaching(name, n2)
+                if r1 is None or r1 is not r2:
+                    return False
+        s1 = [m for x in n1 for m in cfg.succ[x]]
+        s2 = [m for x in n2 for m in cfg.succ[x]]
+        mid = ((cfg.reach(s1) & cfg.coreach(n2)) | (cfg.reach(s2) & cfg.coreach(n1))) - set(n1) - set(n2)
+        return not self._killed(t, mid)
+
+    def value_at(self, name, nodes):
+        """The expression local ``name`` stands for at all of the CFG ``nodes`` (or None)."""
+        d = self.def_at(name, nodes)
+        return self._value[(id(d), name)] if d is not None else None
+
+    def _killed(self, val, mid):
+        cfg = self.cfg
+        if cfg._kills(val, mid):
+            return True
+        pure = _path(val) is not None
+        vpaths = [p for p in (_path(x) for x in _maximal_attrs(val)) if p]
+        vnames = set(x.id for x in ast.walk(val) if isinstance(x, ast.Name))
+        whole = set(x.id for x in ast.walk(val) if isinstance(x, ast.Name) and not _is_attr_base(val, x))
+
+        def related(tp):
+            return any(vp[:len(tp)] == tp or tp[:len(vp)] == vp for vp in vpaths)
+        for nid in mid:
+            nd = cfg.nodes[nid]
+            if nd.stmt is None or nd.kind not in ('stmt', 'head'):
+                continue
+            for x in _header_nodes(nd.stmt):
+                if isinstance(x, (ast.Attribute, ast.Subscript)) and isinstance(x.ctx, (ast.Store, ast.Del)):
+                    tp = _path(x) if isinstance(x, ast.Attribute) else None
+                    if tp and any(vp[:len(tp)] == tp for vp in vpaths):
+                        return True          # a path the value reads (or a prefix of it) is re-bound
+                    if pure or _root(x) not in vnames:
+                        continue
+                    if tp and tp[0] not in whole and not related(tp):
+                        continue             # a different field of the same object
+                    return True              # a store into an object the value was computed from
+                elif isinstance(x, ast.Call) and isinstance(x.func, ast.Attribute) and _root(x.func.value) in vnames:
+                    rp = _path(x.func.value)
+                    if pure:
+                        if rp and any(len(rp) < len(vp) and vp[:len(rp)] == rp for vp in vpaths):
+                            return True      # a method of the owner may re-bind the field
+                        continue
+                    if rp is None or rp[0] in whole or related(rp):
+                        return True          # a method of an object the value was computed from
+        return False
+
+    # -- full resolution -----------------------------------------------------------------------------------
+    def resolve(self, expr, stmt, depth=6, via=None, stop=None):
+        """``expr`` (as evaluated by statement ``stmt``) with single-assignment locals replaced by what they
+        stand for, repeatedly.  ``via`` (a list) collects the binding statements looked through;  ``stop(name)``
+        -> True keeps a name as it is.  Returns a new tree; ``expr`` is not modified."""
+        nodes = [n for n in self.cfg.nodes_of(stmt) if self.cfg.reachable(n)]
+        return self._res(copy.deepcopy(expr), nodes, depth, via, stop)
+
+    def _res(self, e, nodes, depth, via, stop):
+        if depth <= 0 or not nodes:
+            return e
+        outer = self
+
+        class Sub(ast.NodeTransformer):
+            def visit_Name(self_, n):
+                if not isinstance(n.ctx, ast.Load) or (stop is not None and stop(n.id)):
+                    return n
+                st = outer.def_at(n.id, nodes)
+                if st is None:
+                    return n
+                v = outer._value[(id(st), n.id)]
+                if via is not None and st not in via:
+                    via.append(st)
+                ids = [x for x in outer.cfg.nodes_of(st) if outer.cfg.reachable(x)]
+                return outer._res(copy.deepcopy(v), ids, depth - 1, via, stop)
+
+            def visit_Lambda(self_, n):
+                return n
+
+            def _comp(self_, n):
+                return n
+            visit_ListComp = visit_SetComp = visit_DictComp = visit_GeneratorExp = _comp
+        return Sub().visit(e)
+
+    def text(self, expr, stmt, **kw):
+        return norm(self.resolve(expr, stmt, **kw))
+
+    def conds(self, conds, mod):
+        """Path conditions with their tests resolved at the statement that evaluates them."""
+        from .astutil import stmt_of
+        out = []
+        for t, p in conds:
+            st = stmt_of(mod, t)
+            out.append((self.resolve(t, st) if st is not None and self.cfg.nodes_of(st) else t, p))
+        return out
+
+
+def _header_nodes(st):
+    """Nodes evaluated by the statement itself (for compound statements: the header, not the nested blocks)."""
+    if isinstance(st, (ast.FunctionDef, ast.AsyncFunctionDef, ast.ClassDef)):
+        return [st]
+    skip = set()
+    for fld in ('body', 'orelse', 'finalbody', 'handlers', 'cases'):
+        sub = getattr(st, fld, None)
+        if isinstance(sub, list):
+            skip.update(id(x) for x in sub)
+    out = []
+    todo = [st]
+    while todo:
+        n = todo.pop()
+        out.append(n)
+        if isinstance(n, (ast.Lambda,)):
+            continue
+        for c in ast.iter_child_nodes(n):
+            if id(c) not in skip:
+                todo.append(c)
+    return out
+
+
+def _path(e):
+    """('a', 'b', 'c') for a pure Name/Attribute chain, else None."""
+    parts = []
+    while isinstance(e, ast.Attribute):
+        parts.append(e.attr)
+        e = e.value
+    if isinstance(e, ast.Name):
+        parts.append(e.id)
+        return tuple(reversed(parts))
+    return None
+
+
+def _maximal_attrs(tree):
+    """Attribute nodes of ``tree`` that are not themselves the base of a longer attribute chain."""
+    inner = set(id(n.value) for n in ast.walk(tree) if isinstance(n, ast.Attribute))
+    return [n for n in ast.walk(tree) if isinstance(n, ast.Attribute) and id(n) not in inner]
+
+
+def _root(e):
+    while True:
+        if isinstance(e, (ast.Attribute, ast.Subscript, ast.Starred)):
+            e = e.value
+        elif isinstance(e, ast.Call):
+            e = e.func
+        else:
+            break
+    return e.id if isinstance(e, ast.Name) else None
+
+
+def _is_attr_base(tree, name_node):
+    """Is this Name node (inside ``tree``) the base of an attribute chain (``name.x``), as opposed to being used whole?"""
+    for n in ast.walk(tree):
+        if isinstance(n, ast.Attribute) and n.value is name_node:
+            return True
+    return False
